@@ -4,6 +4,7 @@ import ast
 from ..model import (AnalysisError, FUNC_TYPES, U, call_attr, call_name, dotted, enclosing, enclosing_function, guard_texts, guards_ex,
                      short, walk_body, walk_local, ancestors, parent, const_str, kwarg)
 from ..util import params, find_calls, assigns_to, trace, stmt_of, has_exit, syn_dominates
+from .. import feat
 
 CORE = "insights.core"
 PR = "insights.parsers"
@@ -90,14 +91,27 @@ def r2_keyword_search(cx):
         cx.require(core in ops, lam, "suffix '%s' performs the operation of the same name" % name, construct="%s: %s" % (name, body))
     for k in tbl:
         cx.require(k in MATCHER_OPS, md[0], "every suffix in the table is a documented one", construct="suffix %s" % k)
-    alls = [x for x in find_calls(fn.body, name=("all", "any")) if "search_terms" in U(x)]
-    ok = len(alls) == 1 and call_name(alls[0]) == "all" and U(alls[0].args[0]) in ("(key_match(row, *term) for term in search_terms)",)
-    cx.require(ok, alls[0] if alls else fn, "a row is kept iff ALL search terms match", construct=short(alls[0]) if alls else "(none)")
-    if alls:
-        ap = [x for x in find_calls(fn.body, attr="append") if U(x.func.value) == "data"]
-        lp = enclosing(alls[0], ast.For)
-        ok = len(ap) == 1 and lp is not None and U(lp.iter) == "rows" and U(ap[0].args[0]) == U(lp.target) and not has_exit(lp.body) and set(guard_texts(ap[0], stop=lp)) == set([(U(alls[0]), True)])
-        cx.require(ok, ap[0] if ap else fn, "matching rows are returned unchanged, in input order", construct=short(lp, 100) if lp is not None else "(none)")
+    # the conjunction over the compiled terms
+    quant = [x for x in ast.walk(fn) if isinstance(x, ast.Call) and call_name(x) in ("all", "any") and x.args and isinstance(x.args[0], (ast.GeneratorExp, ast.ListComp))
+             and any(U(g.iter) == "search_terms" for g in x.args[0].generators)]
+    ok = bool(quant) and all(call_name(q) == "all" and isinstance(q.args[0].elt, ast.Call) and call_name(q.args[0].elt) == "key_match" and not q.args[0].generators[0].ifs for q in quant)
+    cx.require(ok, quant[0] if quant else fn, "a row is kept iff ALL search terms match", construct=short(quant[0]) if quant else "(no all(... for term in search_terms))")
+    if quant:
+        q = quant[0]
+        comp = enclosing(q, (ast.ListComp,))
+        ok = False
+        what = "(none)"
+        if comp is not None and any(q is i for g in comp.generators for i in g.ifs):
+            g = comp.generators[0]
+            ok = len(comp.generators) == 1 and U(g.iter) == "rows" and U(comp.elt) == U(g.target) and len(g.ifs) == 1
+            what = short(comp, 110)
+        else:
+            lp = enclosing(q, ast.For)
+            ap = [x for x in find_calls(lp.body, attr="append")] if lp is not None else []
+            ok = lp is not None and U(lp.iter) == "rows" and len(ap) == 1 and U(ap[0].args[0]) == U(lp.target) and not feat.loop_exits(lp) \
+                and set(guard_texts(ap[0], stop=lp)) == set([(U(q), True)])
+            what = short(lp, 110) if lp is not None else "(none)"
+        cx.require(ok, q, "matching rows are returned unchanged, in input order", construct=what)
     # unknown suffix -> equality on the full key
     fb = [a for a in walk_body(fn.body) if isinstance(a, ast.Assign) and U(a.targets[0]) == "data_key" and U(a.value) == "search_keyword" and ("matcher in matchers", False) in guard_texts(a)]
     fm = [a for a in walk_body(fn.body) if isinstance(a, ast.Assign) and U(a.targets[0]) == "matcher" and U(a.value) == "'equals'" and ("matcher in matchers", False) in guard_texts(a)]
@@ -105,13 +119,29 @@ def r2_keyword_search(cx):
     pt = [a for a in walk_body(fn.body) if isinstance(a, ast.Assign) and isinstance(a.value, ast.Call) and call_attr(a.value) == "partition" and U(a.value.func.value) == "search_keyword"]
     cx.require(bool(pt) and const_str(pt[0].value.args[0]) == "__", pt[0] if pt else fn, "the suffix is what follows the first '__'", construct=short(pt[0]) if pt else "(none)")
     km = [n for n in fn.body if isinstance(n, FUNC_TYPES) and n.name == "key_match"]
-    ok = False
+    ok = bool(km)
+    seen = []
     if km:
-        rets = [U(r.value) for r in walk_body(km[0].body) if isinstance(r, ast.Return)]
-        ok = rets == ["data_key in row and row[data_key] == value", "data_key in row and matcher_fn(row[data_key], value)"]
-    cx.require(ok, km[0] if km else fn, "a term matches only when the row has the field and the matcher accepts its value", construct="key_match returns")
-    tx = [a for a in walk_body(fn.body) if isinstance(a, ast.Assign) and U(a.targets[0]) == "txkeys" and isinstance(a.value, ast.Call) and call_name(a.value) == "dict"]
-    ok = bool(tx) and "key.replace(' ', '_').replace('-', '_'), key" in U(tx[0].value)
+        ps = params(km[0])
+        row, key = ps[0], ps[1]
+        has = "%s in %s" % (key, row)
+        rets = [r for r in walk_body(km[0].body) if isinstance(r, ast.Return)]
+        ok = bool(rets)
+        for r in rets:
+            t = U(r.value) if r.value is not None else "None"
+            conj = [U(v) for v in r.value.values] if isinstance(r.value, ast.BoolOp) and isinstance(r.value.op, ast.And) else [t]
+            if t == "False":
+                continue
+            implied = has in conj[:-1] or (has, True) in guard_texts(r)
+            last = conj[-1]
+            accepts = last == "%s[%s] == value" % (row, key) or (last.endswith("(%s[%s], value)" % (row, key)) and isinstance(ast.parse(last, mode="eval").body, ast.Call))
+            seen.append(t)
+            ok = ok and implied and accepts
+    cx.require(ok, km[0] if km else fn, "a term matches only when the row has the field and the matcher accepts its value", construct="key_match returns: %s" % "; ".join(seen))
+    tx = [a for a in walk_body(fn.body) if isinstance(a, ast.Assign) and U(a.targets[0]) == "txkeys" and isinstance(a.value, (ast.Call, ast.DictComp))]
+    tx = [a for a in tx if "replace" in U(a.value)]
+    t = U(tx[0].value) if tx else ""
+    ok = len(tx) == 1 and ("key.replace(' ', '_').replace('-', '_'), key" in t or "key.replace(' ', '_').replace('-', '_'): key" in t)
     cx.require(ok, tx[0] if tx else fn, "search keywords address fields by name with spaces and dashes as underscores", construct=short(tx[0], 110) if tx else "(none)")
 
 
@@ -119,65 +149,124 @@ def r3_kv_and_comments(cx):
     cx.rule("C15.R3", "key/value splitting at the first separator in line order; comments and blanks contribute nothing", floor=5)
     m = cx.repo.module(PR)
     fn = m.func("split_kv_pairs", "C15.R3")
-    bad = [x for x in find_calls(fn.body) if call_attr(x) in ("rsplit", "rpartition")]
+    reg = feat.region(m, fn)
+    ps = params(fn)
+    lines_p, sep_names = ps[0], set(["split_on"])
+    bad = feat.calls(reg, attr=("rsplit", "rpartition"))
     cx.require(not bad, bad[0] if bad else fn, "never split at the last separator", construct=short(bad[0]) if bad else "no rsplit/rpartition")
-    sp = [x for x in find_calls(fn.body, attr="split") if U(x.func.value) == "line"]
-    ok = len(sp) == 1 and len(sp[0].args) == 2 and U(sp[0].args[0]) == "split_on" and U(sp[0].args[1]) == "1"
-    cx.require(ok, sp[0] if sp else fn, "line.split(separator, 1): the key ends at the first separator", construct=short(sp[0]) if sp else "(none)")
-    pa = [x for x in find_calls(fn.body, attr="partition") if U(x.func.value) == "line"]
-    cx.require(len(pa) == 1 and U(pa[0].args[0]) == "split_on", pa[0] if pa else fn, "partition variant also splits at the first separator", construct=short(pa[0]) if pa else "(none)")
+    sp = [x for x in feat.calls(reg, attr="split") if x.args and U(x.args[0]) in sep_names]
+    pa = [x for x in feat.calls(reg, attr="partition") if x.args and U(x.args[0]) in sep_names]
+    ok = bool(sp) and all(len(x.args) == 2 and U(x.args[1]) == "1" for x in sp)
+    cx.require(ok, sp[0] if sp else fn, "line.split(separator, 1): the key ends at the first separator", construct="; ".join(short(x) for x in sp) if sp else "(none)")
+    cx.require(bool(pa), pa[0] if pa else fn, "partition variant also splits at the first separator", construct=short(pa[0]) if pa else "(none)")
     sts = [a for a in walk_body(fn.body) if isinstance(a, ast.Assign) and U(a.targets[0]).startswith("kv_pairs[")]
-    ok = len(sts) == 2 and all(U(a.targets[0]) == "kv_pairs[k.strip()]" and U(a.value) == "v.strip()" for a in sts)
-    lp = [s for s in fn.body if isinstance(s, ast.For)]
-    ok = ok and bool(lp) and U(lp[0].iter) == "_lines" and not has_exit(lp[0].body)
-    cx.require(ok, sts[0] if sts else fn, "pairs are stored by plain assignment in line order (later duplicates override)", construct="for line in _lines: kv_pairs[k.strip()] = v.strip()")
-    ld = assigns_to(fn, "_lines")
-    ok = len(ld) == 2 and U(ld[0].value) == "lines if comment_char is None else get_active_lines(lines, comment_char=comment_char)"
-    cx.require(ok, ld[0] if ld else fn, "comment stripping precedes splitting", construct=short(ld[0], 120) if ld else "(none)")
+    other = [x for x in find_calls(fn.body, attr=("setdefault", "update")) if U(x.func.value) == "kv_pairs"]
+    ok = bool(sts) and not other
+    lp = None
+    for a in sts:
+        lp = enclosing(a, ast.For)
+        g = guard_texts(a, stop=lp)
+        ok = ok and lp is not None and enclosing(lp, (ast.For, ast.While)) is None and not feat.loop_exits(lp) and not any("kv_pairs" in t for t, p in g)
+        # the key and the value are the stripped halves
+        key = a.targets[0].slice
+        fnn = enclosing_function(a)
+        stripped = lambda n: isinstance(n, ast.Call) and call_attr(n) == "strip"
+        ok = ok and (feat.flows_from(key, fnn, stripped) or any(any(stripped(n) for n in ast.walk(r)) for f in reg[1:] for r in ast.walk(f) if isinstance(r, ast.Return)))
+    cx.require(ok, sts[0] if sts else fn, "pairs are stored by plain assignment in line order (later duplicates override)", construct="; ".join(short(a) for a in sts) if sts else "(no kv_pairs[...] = ...)")
+    ga_calls = [x for x in find_calls(fn.body, name="get_active_lines")]
+    ok = len(ga_calls) == 1 and U(ga_calls[0].args[0]) == lines_p and guard_texts(ga_calls[0]) <= set([("comment_char is None", False)])
+    if ok and lp is not None:
+        ok = feat.flows_from(lp.iter, fn, lambda n: n is ga_calls[0])
+    cx.require(ok, ga_calls[0] if ga_calls else fn, "comment stripping precedes splitting", construct=short(stmt_of(ga_calls[0]), 120) if ga_calls else "(none)")
     ga = m.func("get_active_lines", "C15.R3")
-    rets = [r for r in walk_body(ga.body) if isinstance(r, ast.Return)]
-    ok = len(rets) == 1 and U(rets[0].value) == "list(filter(None, (line.split(comment_char, 1)[0].strip() for line in lines)))"
-    cx.require(ok, rets[0] if rets else ga, "each line keeps the part before the first comment character, stripped; empty results are dropped; order kept", construct=short(rets[0], 120) if rets else "(none)")
+    rg = feat.region(m, ga)
+    bad = feat.calls(rg, attr=("rsplit", "rpartition"))
+    cuts = [x for x in feat.calls(rg, attr=("split", "partition")) if x.args and U(x.args[0]) == "comment_char"]
+    ok = not bad and len(cuts) == 1
+    if ok:
+        c = cuts[0]
+        ok = (call_attr(c) == "partition" or (len(c.args) == 2 and U(c.args[1]) == "1")) and isinstance(parent(c), ast.Subscript) and U(parent(c).slice) == "0"
+        ok = ok and isinstance(parent(parent(c)), ast.Attribute) and parent(parent(c)).attr == "strip"
+    drops = [x for x in feat.calls(rg, name="filter") if x.args and U(x.args[0]) == "None"] or [c for c in feat.walk(rg) if isinstance(c, ast.comprehension) and c.ifs]
+    cx.require(ok and bool(drops), cuts[0] if cuts else ga, "each line keeps the part before the first comment character, stripped; empty results are dropped; order kept",
+               construct=short(stmt_of(cuts[0]), 120) if cuts else "(none)")
+
+
+def _pairing_ok(fn):
+    """The (start, end) pairs: column k ends where column k+1 starts, the last one is open ended."""
+    for n in ast.walk(fn):
+        # [(c, X[i + 1]) for i, c in enumerate(X) if c is not None]  with X = starts + [None]
+        if isinstance(n, ast.ListComp) and isinstance(n.elt, ast.Tuple) and len(n.elt.elts) == 2 and len(n.generators) == 1:
+            g = n.generators[0]
+            if isinstance(g.iter, ast.Call) and call_name(g.iter) == "enumerate" and isinstance(g.target, ast.Tuple) and len(g.target.elts) == 2:
+                i, c = U(g.target.elts[0]), U(g.target.elts[1])
+                x = U(g.iter.args[0])
+                if U(n.elt.elts[0]) == c and U(n.elt.elts[1]) == "%s[%s + 1]" % (x, i) and [U(t) for t in g.ifs] == ["%s is not None" % c]:
+                    d = [a for a in walk_body(fn.body) if isinstance(a, ast.Assign) and U(a.targets[0]) == x]
+                    if len(d) == 1 and U(d[0].value).endswith("+ [None]"):
+                        return n
+        # zip(X, X[1:] + [None])
+        if isinstance(n, ast.Call) and call_name(n) == "zip" and len(n.args) == 2:
+            x = U(n.args[0])
+            if U(n.args[1]) == "%s[1:] + [None]" % x:
+                return n
+    return None
 
 
 def r4_tables(cx):
     cx.rule("C15.R4", "table helpers slice rows by header positions / split by the delimiter, in row order", floor=7)
     m = cx.repo.module(PR)
     fn = m.func("parse_fixed_table", "C15.R4")
-    ci = [n for n in fn.body if isinstance(n, FUNC_TYPES) and n.name == "calc_column_indices"]
-    ok = False
-    if ci:
-        f = ci[0]
-        idx = [x for x in find_calls(f.body, attr="index")]
-        st = [a for a in walk_body(f.body) if isinstance(a, ast.Assign) and U(a.targets[0]) == "i"]
-        ok = len(idx) == 1 and [U(a) for a in idx[0].args] == ["h", "i"] and len(st) == 1 and U(st[0].value) == "idx[-1] + 1 if idx else 0"
-        lp = [s for s in f.body if isinstance(s, ast.For)]
-        ok = ok and bool(lp) and U(lp[0].iter) == params(f)[1] and not has_exit(lp[0].body)
-    cx.require(ok, ci[0] if ci else fn, "each header is located strictly after the previous column start (duplicate header text is handled)", construct="i = idx[-1] + 1 if idx else 0; line.index(h, i)")
-    cxd = [a for a in walk_body(fn.body) if isinstance(a, ast.Assign) and U(a.targets[0]) == "col_index"]
-    ip = [a for a in walk_body(fn.body) if isinstance(a, ast.Assign) and U(a.targets[0]) == "idx_pairs"]
-    ok = bool(cxd) and U(cxd[0].value) == "calc_column_indices(header, col_headers) + [None]" and bool(ip) and U(ip[0].value) == "[(c, col_index[i + 1]) for i, c in enumerate(col_index) if c is not None]"
-    cx.require(ok, ip[0] if ip else fn, "column k spans from its header position to the next header position (the last to end of line)", construct=short(ip[0], 120) if ip else "(none)")
-    sl = [a for a in walk_body(fn.body) if isinstance(a, ast.Assign) and U(a.targets[0]) == "val"]
-    stc = [a for a in walk_body(fn.body) if isinstance(a, ast.Assign) and U(a.targets[0]) == "col_data[col_headers[i]]"]
-    ok = bool(sl) and U(sl[0].value) == "line[s:e].strip()" and bool(stc) and U(stc[0].value) == "val"
-    cx.require(ok, sl[0] if sl else fn, "a cell is the stripped slice of its column, stored under the column's header", construct="val = line[s:e].strip(); col_data[col_headers[i]] = val")
-    lp = [s for s in fn.body if isinstance(s, ast.For) and "table_lines[first_line + 1:last_line]" == U(s.iter)]
+    reg = feat.region(m, fn)
+    idx = feat.calls(reg, attr="index")
+    ok = len(idx) == 1 and len(idx[0].args) == 2
+    if ok:
+        f = enclosing_function(idx[0])
+        lp = enclosing(idx[0], ast.For)
+        ok = lp is not None and not feat.loop_exits(lp) and feat.flows_from(idx[0].args[1], f, lambda n: isinstance(n, ast.BinOp) and isinstance(n.op, ast.Add) and U(n.right) == "1" and U(n.left).endswith("[-1]"))
+        d = assigns_to(f, U(idx[0].args[1])) if isinstance(idx[0].args[1], ast.Name) else []
+        ok = ok and all(enclosing(a, ast.For) is lp for a in d)
+    cx.require(ok, idx[0] if idx else fn, "each header is located strictly after the previous column start (duplicate header text is handled)",
+               construct=short(stmt_of(idx[0])) if idx else "(no .index(header, start))")
+    pr = _pairing_ok(fn)
+    cx.require(pr is not None, pr if pr is not None else fn, "column k spans from its header position to the next header position (the last to end of line)", construct=short(pr, 120) if pr is not None else "(no recognised pairing)")
+    lps = [s for s in walk_body(fn.body) if isinstance(s, ast.For) and "table_lines[first_line + 1:last_line]" == U(s.iter) and enclosing(s, (ast.For, ast.While)) is None]
     ap = [x for x in find_calls(fn.body, attr="append") if U(x.func.value) == "table_data"]
-    ok = bool(lp) and len(ap) == 1 and set(guard_texts(ap[0], stop=lp[0])) == set([("line.strip()", True)]) and not [b for b in walk_body(lp[0].body) if isinstance(b, (ast.Break, ast.Continue, ast.Return))]
-    cx.require(ok, lp[0] if lp else fn, "every non-blank row between heading and trailer yields one record, in order", construct="for line in table_lines[first_line + 1:last_line]: if line.strip(): ... append")
+    ok = len(lps) == 1 and len(ap) == 1 and enclosing(ap[0], ast.For) is lps[0]
+    if ok:
+        lp, cur = lps[0], U(lps[0].target)
+        ok = set(guard_texts(ap[0], stop=lp)) == set([("%s.strip()" % cur, True)]) and not feat.loop_exits(lp)
+        cells = [n for n in walk_body(lp.body) if isinstance(n, ast.Subscript) and isinstance(n.slice, ast.Slice) and U(n.value) == cur]
+        okc = len(cells) == 1 and isinstance(cells[0].slice.lower, ast.Name) and isinstance(cells[0].slice.upper, ast.Name) and cells[0].slice.step is None \
+            and isinstance(parent(cells[0]), ast.Attribute) and parent(cells[0]).attr == "strip"
+        if okc:
+            il = enclosing(cells[0], ast.For)
+            okc = il is not None and il is not lp and "(%s, %s)" % (U(cells[0].slice.lower), U(cells[0].slice.upper)) in U(il.target) and "idx_pairs" in U(il.iter)
+            st = [a for a in walk_body(il.body) if isinstance(a, ast.Assign) and isinstance(a.targets[0], ast.Subscript) and U(a.targets[0].value) == U(ap[0].args[0])] if okc else []
+            okc = okc and len(st) == 1 and feat.flows_from(st[0].value, fn, lambda n: n is cells[0]) and not any(isinstance(x, (ast.Break, ast.Continue, ast.Return)) for x in walk_body(il.body))
+            if okc:
+                k = U(st[0].targets[0].slice)
+                it = U(il.iter)
+                okc = (k.startswith("col_headers[") and it.startswith("enumerate(")) or (it.startswith("zip(col_headers,") and U(il.target).startswith("(%s," % k))
+        cx.require(okc, cells[0] if cells else lp, "a cell is the stripped slice of its column, stored under the column's header", construct=short(stmt_of(cells[0])) if cells else "(none)")
+    cx.require(ok, lps[0] if lps else fn, "every non-blank row between heading and trailer yields one record, in order", construct="for line in table_lines[first_line + 1:last_line]: if line.strip(): ... append")
     fd = m.func("parse_delimited_table", "C15.R4")
-    z = [a for a in walk_body(fd.body) if isinstance(a, ast.Assign) and U(a.targets[0]) == "o"]
-    rs = [a for a in walk_body(fd.body) if isinstance(a, ast.Assign) and U(a.targets[0]) == "rowsplit" and "split(" in U(a.value)]
-    ok = bool(z) and U(z[0].value) == "dict(zip(headings, rowsplit))" and bool(rs) and U(rs[0].value) == "row.split(delim, max_splits)"
-    cx.require(ok, z[0] if z else fd, "a delimited row is split by the delimiter and zipped with the headings", construct="rowsplit = row.split(delim, max_splits); o = dict(zip(headings, rowsplit))")
-    ct = [a for a in walk_body(fd.body) if isinstance(a, ast.Assign) and U(a.targets[0]) == "content"]
     ap = [x for x in find_calls(fd.body, attr="append") if U(x.func.value) == "r"]
     lp = enclosing(ap[0], ast.For) if ap else None
-    ok = bool(ct) and U(ct[0].value) == "table_lines[first_line + 1:last_line]" and lp is not None and U(lp.iter) == "content" and set(guard_texts(ap[0], stop=lp)) == set([("row", True)])
-    cx.require(ok, ct[0] if ct else fd, "every non-blank row after the heading yields one record, in order", construct="content = table_lines[first_line + 1:last_line]; for line in content: if row: r.append(o)")
+    z = [x for x in find_calls(fd.body, name="zip") if len(x.args) == 2 and U(x.args[0]) == "headings" and call_name(parent(x)) == "dict"]
+    ok = lp is not None and len(z) == 1 and enclosing(z[0], ast.For) is lp
+    if ok:
+        ok = feat.flows_from(z[0].args[1], fd, lambda n: isinstance(n, ast.Call) and call_attr(n) == "split" and [U(a) for a in n.args] == ["delim", "max_splits"]) and feat.flows_from(ap[0].args[0], fd, lambda n: n is z[0])
+    cx.require(ok, z[0] if z else fd, "a delimited row is split by the delimiter and zipped with the headings", construct=short(stmt_of(z[0])) if z else "(none)")
+    ok = lp is not None and len(ap) == 1 and enclosing(lp, (ast.For, ast.While)) is None and not feat.loop_exits(lp)
+    if ok:
+        it = trace(lp.iter, fd)
+        g = set(guard_texts(ap[0], stop=lp))
+        cur = U(lp.target)
+        ok = U(it) == "table_lines[first_line + 1:last_line]" and g in (set([("row", True)]), set([("%s.strip()" % cur, True)]))
+    cx.require(ok, lp if lp is not None else fd, "every non-blank row after the heading yields one record, in order", construct="for line in table_lines[first_line + 1:last_line]: if row: r.append(o)")
     hd = [a for a in walk_body(fd.body) if isinstance(a, ast.Assign) and U(a.targets[0]) == "headings"]
-    ok = bool(hd) and U(hd[0].value) == "[c.strip() if strip else c for c in header.split(header_delim)]"
+    ok = len(hd) == 1 and any(isinstance(n, ast.Call) and call_attr(n) == "split" and U(n.func.value) == "header" and [U(a) for a in n.args] == ["header_delim"] for n in ast.walk(hd[0].value))
     cx.require(ok, hd[0] if hd else fd, "headings are the header split by the header delimiter", construct=short(hd[0]) if hd else "(none)")
 
 
